@@ -284,6 +284,20 @@ def hash_pairs(ctx, seed):
     yield "SoundEvent", "near_features", se, se.model_copy(update={"features": []})
     yield from neighbour_pairs(objs, g.rng)
     yield from same_number_pairs(objs, g.rng)
+    # the same INSTANT written in two time zones (an annotation tool that stores local time with its offset, a server that
+    # stores UTC): Python calls the two aware datetimes equal
+    import datetime as _dt
+
+    for name, a in objs.items():
+        for field in ("created_on", "date"):
+            if field in type(a).model_fields and isinstance(getattr(a, field, None), _dt.datetime):
+                t0 = _dt.datetime(2024, 3, 9, 12, 30, 15, 250000, tzinfo=_dt.timezone.utc)
+                for off in (_dt.timedelta(hours=1), _dt.timedelta(hours=-7), _dt.timedelta(hours=5, minutes=30)):
+                    try:
+                        pa, pb = _with(a, (field,), t0), _with(a, (field,), t0.astimezone(_dt.timezone(off)))
+                    except Exception:
+                        continue
+                    yield name, f"same_instant_other_zone:{field}", pa, pb
 
 
 # ------------------------------------------------------- nearest neighbours of an object
